@@ -27,12 +27,13 @@
 -/
 import GherkinVerif.Props.C16Doc
 import GherkinVerif.Lemmas.LayoutDoc2
+import GherkinVerif.KDecide
 namespace GV
 open Lemmas
 
 /-- facts about the regenerated table: an `Other` test is never guarded; no look-ahead tests `Other` -/
-theorem C16_fact_other_unguarded : Spec.otherUnguarded Gen.parserTable = true := by decide +kernel
-theorem C16_fact_lookaheads_no_other : Spec.lookaheadsNoOther Gen.parserTable = true := by decide +kernel
+theorem C16_fact_other_unguarded : Spec.otherUnguarded Gen.parserTable = true := by kdecide
+theorem C16_fact_lookaheads_no_other : Spec.lookaheadsNoOther Gen.parserTable = true := by kdecide
 
 /-- Line `l'` may replace line `l`: they are equal, or agree up to trailing whitespace (blanks and
     line ending) and `l` is not a `#` line and is step-tail-free for the dialects `DS`. -/
@@ -211,14 +212,14 @@ example : (MState.init Gen.dialects (lit "en")).map (fun μ =>
       C16_trailingBlanksOk false μ 0
         (lit "Feature: f  \n@t \t\nScenario Outline: s \n  Given <x>  \n  \"\"\" xml \n  Given y\n  \"\"\"  \n   \n  Examples: \n  | x | \n")
         (lit "Feature: f\n@t\nScenario Outline: s\n  Given <x>\n  \"\"\" xml\n  Given y\n  \"\"\"\n\n  Examples:\n  | x |\n")) =
-    some true := by decide +kernel
+    some true := by kdecide
 
 /-- … and the parse is not trivial: accepted, 5 ids -/
 example : (MState.init Gen.dialects (lit "en")).map (fun μ =>
       let r := parseWith Gen.dialects Gen.parserTable false μ 0
         (lit "Feature: f  \n@t \t\nScenario Outline: s \n  Given <x>  \n  \"\"\" xml \n  Given y\n  \"\"\"  \n   \n  Examples: \n  | x | \n")
       ((match r.1 with | .ok d => some (d.feature.map Feature.name) | _ => none), r.2.ids)) =
-    some (some (some (lit "f")), 5) := by decide +kernel
+    some (some (some (lit "f")), 5) := by kdecide
 
 /-- the dynamic hypothesis is needed: a blank added to a description line (read as `Other`) fails the
     check, and the documents differ (the description keeps the blank) -/
@@ -230,11 +231,11 @@ example : (MState.init Gen.dialects (lit "en")).map (fun μ =>
         | .ok d => d.feature.map Feature.description | _ => none),
        (match (parseWith Gen.dialects Gen.parserTable false μ 0 b).1 with
         | .ok d => d.feature.map Feature.description | _ => none))) =
-    some (false, some (lit " desc "), some (lit " desc")) := by decide +kernel
+    some (false, some (lit " desc "), some (lit " desc")) := by kdecide
 
 /-- the static hypotheses are needed: "Given" + blank becomes a step (F8), a comment keeps its blank -/
 example : C16_lineOk [Gen.d_en] (lit "Given \n") (lit "Given\n") = false ∧
     C16_lineOk [Gen.d_en] (lit "# c \n") (lit "# c\n") = false ∧
-    C16_lineOk [Gen.d_en] (lit "  Given x \n") (lit "  Given x\n") = true := by decide +kernel
+    C16_lineOk [Gen.d_en] (lit "  Given x \n") (lit "  Given x\n") = true := by kdecide
 
 end GV
